@@ -44,6 +44,14 @@ const KF_AVRO_NULL_NESTED: bool = true;
 /// a union column cannot be read past the first batch.  While true, schemas with a general union are read
 /// with a batch size that holds all rows.
 const KF_AVRO_UNION_BATCH: bool = true;
+/// KNOWN-FINDING candidate (arrow-avro/src/writer/format.rs AvroOcfFormat::start_stream): the OCF header always
+/// advertises a schema *regenerated* from the Arrow schema (strip_metadata: true) while the rows are encoded with
+/// the `avro.schema` JSON the user supplied in the metadata (writer/mod.rs prepare_encoder); when the two differ
+/// in encoding (["T","null"] order, decimal over fixed(n), ...) the file is garbage for every reader, and
+/// arrow-avro's own Reader does not terminate on it (e.g. Int64 column [5, null, 7] with
+/// {"name":"f0","type":["long","null"]}).  While true, container files are written with an explicit schema only
+/// when it has no null-second union and no decimal.
+const KF_AVRO_OCF_SCHEMA: bool = true;
 
 // ------------------------------------------------------------------------------------------------ trees
 #[derive(Clone, Debug, PartialEq)]
@@ -610,11 +618,10 @@ fn run_avro(op: &str, a: &Args) -> Args {
                 let mut pos = 0;
                 // fed in two pieces, flushing whenever a batch fills
                 let mut cut = bytes.len() / 2;
-                if KF_AVRO_STREAM_SPLIT { // move the cut back to a row boundary
-                    let mut at = 0; let mut best = 0;
-                    for r in &rows { if at <= cut { best = at } let mut e = Vec::new(); avro_enc(&sc, r, 0, false, &mut e); at += 10 + e.len(); }
-                    if at <= cut { best = at }
-                    cut = best.min(bytes.len());
+                if KF_AVRO_STREAM_SPLIT { // move the cut back to a row boundary: the last frame prefix at or before it
+                    let fp = match AvroSchema::new(if explicit { ctx.json.clone() } else { match AvroSchema::try_from(&*ctx.arrow) { Ok(s) => s.json_string, Err(_) => return err(E_UNSUPPORTED) } }).fingerprint(arrow_avro::schema::FingerprintAlgorithm::Rabin) { Ok(f) => f, Err(_) => return err(E_UNSUPPORTED) };
+                    let prefix = soe_prefix(&fp);
+                    while cut > 0 && !(cut + 10 <= bytes.len() && bytes[cut..cut + 10] == prefix[..]) { cut -= 1 }
                 }
                 let mut carry: Vec<u8> = Vec::new();
                 for piece in [&bytes[..cut], &bytes[cut..]] {
@@ -1184,7 +1191,7 @@ fn render_double(r: &mut Rng, out: &mut Vec<u8>) {
     let int_digits = if r.chance(1, 4) { 0 } else { 1 + r.below(digits) };
     if int_digits == 0 { s.push('0') } else { for i in 0..int_digits { let d = if i == 0 && int_digits > 1 { 1 + r.below(9) } else { r.below(10) }; s.push((b'0' + d as u8) as char) } }
     let frac = digits - int_digits.min(digits);
-    if frac > 0 || r.chance(1, 5) { s.push('.'); for _ in 0..frac.max(1) { s.push((b'0' + r.below(10) as u8) as char) } }
+    if frac > 0 || (digits < 15 && r.chance(1, 5)) { s.push('.'); for _ in 0..frac.max(1) { s.push((b'0' + r.below(10) as u8) as char) } }
     if r.chance(1, 3) { s.push(if r.bool() { 'e' } else { 'E' }); match r.below(3) { 0 => s.push('+'), 1 => s.push('-'), _ => {} } s.push_str(&format!("{}", r.below(if frac > 0 { 8 } else { 8 }))) }
     if r.chance(1, 12) { s = (*r.pick(&["0", "-0", "0.0", "-0.0", "0e0", "1E2", "1e-2", "0.1", "123456789012345", "1.5e+10", "4.35", "1e22"])).to_string() }
     out.extend_from_slice(s.as_bytes())
@@ -1229,6 +1236,28 @@ fn render_doc(r: &mut Rng, sc: &Sc, v: &V, out: &mut Vec<u8>) {
     }
 }
 
+/// KNOWN-FINDING candidate filter (KF_SURROGATE_BIT16): does the string body contain a \u-escaped surrogate pair
+/// whose high surrogate has bit 6 of (high - 0xD800) set?  (adjacent atoms can form such a pair by accident)
+fn has_kf_pair(body: &[u8]) -> bool {
+    let hex4 = |b: &[u8]| -> Option<u32> { if b.len() < 4 { return None } let mut v = 0; for c in &b[..4] { v = v * 16 + (*c as char).to_digit(16)? } Some(v) };
+    let mut i = 0;
+    while i < body.len() {
+        if body[i] == b'\\' {
+            if i + 1 < body.len() && body[i + 1] == b'u' {
+                if let Some(hi) = hex4(&body[i + 2..]) {
+                    if (0xD800..0xDC00).contains(&hi) && (hi - 0xD800) & 0x40 != 0 && i + 12 <= body.len() && body[i + 6] == b'\\' && body[i + 7] == b'u' {
+                        if let Some(lo) = hex4(&body[i + 8..]) { if (0xDC00..0xE000).contains(&lo) { return true } }
+                    }
+                    i += 6; continue;
+                }
+            }
+            i += 2; continue;
+        }
+        i += 1;
+    }
+    false
+}
+
 // ---------------------------------------------------------------------------------- CSV raw text pieces
 fn csv_raw_field(r: &mut Rng, d: u8, q: u8, esc: Option<u8>, term: Option<u8>) -> Vec<u8> {
     let special = |b: u8| b == d || b == q || b == b'\r' || b == b'\n' || Some(b) == esc || Some(b) == term;
@@ -1250,7 +1279,7 @@ fn csv_raw_field(r: &mut Rng, d: u8, q: u8, esc: Option<u8>, term: Option<u8>) -
 }
 
 pub fn generate(tier: &str, r: &mut Rng, emit: &mut dyn FnMut(Case)) {
-    let scale = if tier == "thorough" { 8 } else { 1 };
+    let scale = if tier == "thorough" { 16 } else { 2 };
     let any = |_: &[u8]| true;
 
     // ---------------------------------------------------------------- Avro: writer -> reader
@@ -1261,7 +1290,8 @@ pub fn generate(tier: &str, r: &mut Rng, emit: &mut dyn FnMut(Case)) {
         let container = (i % 4 == 3) as i64;
         let codec = if container == 0 { (i % 6) as i64 } else { 0 };
         let slicing = r.below(3) as i64;
-        let explicit = if container == 0 { 0 } else { r.chance(3, 4) as i64 };
+        let mut explicit = r.chance(3, 4) as i64;
+        if KF_AVRO_OCF_SCHEMA && container == 0 && contains_kind(&sc, &|s| matches!(s, Sc::Nullable(true, _) | Sc::DecB { .. } | Sc::DecF { .. })) { explicit = 0 }
         let mut batch = *r.pick(&[1i64, 2, 3, 8, 1024]);
         if KF_AVRO_UNION_BATCH && contains_kind(&sc, &|s| matches!(s, Sc::Union(_))) { batch = 1024 }
         let tag = format!("avro_rt:{}:c{codec}:s{slicing}:e{explicit}:{}", if container == 0 { "ocf" } else { "soe" }, heads(&sc));
@@ -1380,6 +1410,7 @@ pub fn generate(tier: &str, r: &mut Rng, emit: &mut dyn FnMut(Case)) {
             }
         }
         // no bare quote, and a backslash only ever starts one of the atoms above
+        if KF_SURROGATE_BIT16 && has_kf_pair(&body) { continue }
         let cut = r.below(body.len() + 9);
         let tag = format!("json_unescape:{}", kinds.into_iter().collect::<Vec<_>>().join("+"));
         emit(Case::new("c17.json_unescape", vec![gbytes(&body), g(cut as i64)], &["c17.json_unescape", "c17.json_unescape.spec"], tag));
